@@ -86,6 +86,42 @@ func streamU(m *MsgU) (chan *Reply, chan bool, error) {
 	return out, stop, nil
 }
 
+// shareHook holds the first stopper that reaches the schedule point stream.stopperClose
+// (between "the stop channel is still open" and its close) for a given stop channel until a
+// second stopper of that channel reaches the point too, or 4 ms have passed. In the code as
+// it is the point lies under the closing lock and no second stopper can get there: the hold
+// only delays the close. It shapes the interleaving, it does not change what the code does.
+var shareHoldMu sync.Mutex
+var shareHold = map[interface{}]chan struct{}{}
+
+func shareHook(point string, args ...interface{}) {
+	if point != "stream.stopperClose" || len(args) == 0 {
+		return
+	}
+	ch, ok := args[0].(chan bool)
+	if !ok {
+		return
+	}
+	shareHoldMu.Lock()
+	w, second := shareHold[ch]
+	if second {
+		select {
+		case <-w:
+		default:
+			close(w)
+		}
+		shareHoldMu.Unlock()
+		return
+	}
+	w = make(chan struct{})
+	shareHold[ch] = w
+	shareHoldMu.Unlock()
+	select {
+	case <-w:
+	case <-time.After(4 * time.Millisecond):
+	}
+}
+
 // shareRounds: shareRoundsN times, a client of its own sends n requests of one session on
 // one stream, reads the n answers and goes away without a close handshake.
 const shareRoundsN = 40
@@ -1234,6 +1270,7 @@ func runStore(in *input, emit func(interface{}), started *bool) (discard bool, h
 	}()
 	*started = true
 	if in.Store.Share > 0 {
+		onet.SetVerifHook(shareHook)
 		shareRounds(srv, in.Store.Share)
 	}
 	for _, op := range in.Store.Ops {
